@@ -26,8 +26,8 @@ CONSTANTS
   P_STAT = {0, 1}
   P_CHAL = {0, 1}
   STAGES = {"1", "2"}
-  SIGS = {"g1", "g2", "x1", "empty"}
-  RESPS = {"nil", "r1", "rw"}
+  SIGS = {"g1", "g2", "g3", "x1", "empty"}
+  RESPS = {"nil", "r1", "r2", "rw"}
   IDS = {1}
   HASHC = {"good", "bad"}
   FOREIGN = FALSE
